@@ -43,14 +43,50 @@ type checker struct {
 	// hot counters
 	values, roundtrips, canon, complete, ntChecks, wire, prefixDecodes, prefixValues, skippedInvalid, noRoundTrip *atomic.Int64
 	ntSeen                                                                                                        sync.Map // rule -> *atomic.Int64
+	reused   *atomic.Int64
+	usedRecv func(e *codec.Entry) any
+	dirty    sync.Map // entry name -> [2][]byte (encodings of the "max" and "typical" profiles)
 }
 
 func newChecker(c *vf.Ctx) *checker {
-	return &checker{c: c, quick: c.Quick(),
+	k := &checker{c: c, quick: c.Quick(),
 		values: c.Counter("evaluations"), roundtrips: c.Counter("roundtrip_checks"), canon: c.Counter("canonical_reencode_checks"),
 		complete: c.Counter("field_completeness_checks"), ntChecks: c.Counter("not_transmitted_checks"), wire: c.Counter("wirespec_checks"),
 		prefixDecodes: c.Counter("prefix_decodes_rejected"), prefixValues: c.Counter("values_with_all_prefixes_checked"),
 		skippedInvalid: c.Counter("deviations_invalid_for_encoder"), noRoundTrip: c.Counter("deviations_completeness_only")}
+	k.reused = c.Counter("used_receiver_decodes")
+	// NOT ASSERTED (kept for experiments, VERIF_C11_USED_RECEIVER=1): decoding into a receiver that has been used
+	// before. The library's decoders assume a fresh receiver (absent optional parts of a V2Transaction, unused
+	// accumulator trees, the data of an error response are simply not touched), which the property does not forbid -
+	// on the unchanged tree this oracle reported 16 such places, all of that kind: a false alarm by the classification
+	// rule of DESIGN.md section 5, so the oracle is off. Receiver reuse is asserted where the protocol code itself
+	// does it: C19 reads every message of one type of a session into the same variable.
+	if os.Getenv("VERIF_C11_USED_RECEIVER") != "1" {
+		return k
+	}
+	k.usedRecv = func(e *codec.Entry) any {
+		// a receiver that has just decoded another value of the type (profile "max": 0xFF bytes, two-element lists,
+		// every optional part present)
+		v, ok := k.dirty.Load(e.Name)
+		if !ok {
+			b, p := e.SafeEncode(e.Generic(codec.PMax))
+			if p != nil {
+				b = nil
+			}
+			v, _ = k.dirty.LoadOrStore(e.Name, b)
+		}
+		b := v.([]byte)
+		if b == nil {
+			return nil
+		}
+		r := e.New()
+		var err error
+		if pv, _ := vf.Try(func() { err = e.DecodeInto(r, b) }); pv != nil || err != nil {
+			return nil
+		}
+		return r
+	}
+	return k
 }
 
 func shortHex(b []byte) string {
@@ -119,6 +155,26 @@ func (k *checker) checkValue(e *codec.Entry, v any, enc []byte, cs Case, _ strin
 	if d := codec.Equal(want, dec); d != "" {
 		k.violate("roundtrip-mismatch", e, cs, codec.ShortPath(strings.SplitN(d, ":", 2)[0]), "decode(encode(v)) differs from v (modulo documented normalisations) at %s", d)
 		return
+	}
+	// (1b) the same into a receiver that has been used before (a protocol loop reads every message of one type into
+	// one variable): the previous contents must not show through
+	if k.usedRecv != nil && e.DecodeInto != nil {
+		if prev := k.usedRecv(e); prev != nil {
+			var derr error
+			if pv, st := vf.Try(func() { derr = e.DecodeInto(prev, enc) }); pv != nil {
+				k.violate("decode-panic", e, cs, where, "decoding into a used receiver panicked: %v\n%s", pv, st)
+				return
+			}
+			k.reused.Add(1)
+			if derr != nil {
+				k.violate("used-receiver-decode-error", e, cs, where, "decoding a valid encoding into a previously used receiver failed: %v", derr)
+				return
+			}
+			if d := codec.Equal(want, prev); d != "" {
+				k.violate("used-receiver-mismatch", e, cs, codec.ShortPath(strings.SplitN(d, ":", 2)[0]), "decoding into a previously used receiver gives a different value than decoding into a fresh one, at %s", d)
+				return
+			}
+		}
 	}
 	// (2) canonical re-encoding
 	re, p := safeEncode(e, dec)
